@@ -141,13 +141,14 @@ package bloomsearch
 //@ modifies ghost.mutexLocks
 //@ ensures ghost.mutexLocks == old(ghost.mutexLocks) + 1
 
-//@ modset store =ghost.unions, ghost.creates, ghost.created, ghost.writes, ghost.closeCalls, ghost.closeOK, ghost.aborts, ghost.tombstones, ghost.opens, ghost.updates, ghost.updateOK, ghost.closeOKAtUpdate, ghost.updateOKAtTombstone, ghost.tombstonesAtUpdate
+//@ modset store =ghost.unions, ghost.written, ghost.layoutOvf, ghost.creates, ghost.created, ghost.writes, ghost.closeCalls, ghost.closeOK, ghost.aborts, ghost.tombstones, ghost.opens, ghost.updates, ghost.updateOK, ghost.closeOKAtUpdate, ghost.updateOKAtTombstone, ghost.tombstonesAtUpdate
 //@ modset answers = ghost.attempts, ghost.roundAttempts, ghost.sendRounds, ghost.nilRounds, ghost.updateOKAtNilRound, ghost.sends, ghost.nilsends, ghost.recvs
 
 // Store interfaces: results are unconstrained (any call may fail, in any
 // combination); each call only records that it happened.
 //@ extern DataStore.CreateFile
 //@ modifies ghost.creates, ghost.created
+//@ ensures result2 == nil ==> storeWriter(result0)
 //@ ensures ghost.creates == old(ghost.creates) + 1
 //@ ensures ghost.created == old(ghost.created) + (result2 == nil ? 1 : 0)
 
@@ -178,12 +179,27 @@ package bloomsearch
 //@ modifies ghost.mutexUnlocks
 //@ ensures ghost.mutexUnlocks == old(ghost.mutexUnlocks) + 1
 
+// written[wid(w)]: bytes writer w has accepted so far. A Write that returns nil
+// accepted all of p. storeWriter(w): w was handed out by DataStore.CreateFile
+// (the output file); compression stages, hashers and fan-out writers are not.
+//@ ghostvar written map[int]int
+//@ specfun wid(w iface) int
+//@ axiom forall a iface :: forall b iface :: wid(a) == wid(b) ==> a == b
+//@ specfun storeWriter(w iface) bool
+//@ axiom forall w iface :: typeis(w, "*zstd.Encoder") || typeis(w, "*snappy.Writer") ==> !storeWriter(w)
+//@ extern io.MultiWriter
+//@ pure
+//@ ensures !storeWriter(result)
 //@ extern io.WriteCloser.Write
-//@ modifies ghost.writes
+//@ modifies ghost.writes, ghost.written
 //@ ensures ghost.writes == old(ghost.writes) + 1
+//@ ensures result1 == nil ==> ghost.written[wid(recv)] == old(ghost.written[wid(recv)]) + len(p)
+//@ ensures forall w :: w != wid(recv) ==> ghost.written[w] == old(ghost.written[w])
 //@ extern io.Writer.Write
-//@ modifies ghost.writes
+//@ modifies ghost.writes, ghost.written
 //@ ensures ghost.writes == old(ghost.writes) + 1
+//@ ensures result1 == nil ==> ghost.written[wid(recv)] == old(ghost.written[wid(recv)]) + len(p)
+//@ ensures forall w :: w != wid(recv) ==> ghost.written[w] == old(ghost.written[w])
 
 //@ extern io.WriteCloser.Close
 //@ modifies ghost.closeCalls, ghost.closeOK
@@ -201,11 +217,17 @@ package bloomsearch
 //@ pure
 //@ extern (*slog.Logger).Enabled
 //@ pure
+// bytes.Buffer, by its representation: the unread part is buf[off:].
+//@ pred bufLen(b *bytes.Buffer) = len(b.buf) - b.off
 //@ extern (*bytes.Buffer).Bytes
 //@ pure
+//@ ensures len(result) == bufLen(b)
 //@ extern (*bytes.Buffer).Len
 //@ pure
-//@ ensures result >= 0
+//@ ensures result >= 0 && result == bufLen(b)
+//@ extern (*bytes.Buffer).Write
+//@ modifies *b, heap(byte)
+//@ ensures err == nil && n == len(p) && bufLen(b) == old(bufLen(b)) + len(p)
 
 // ---------------------------------------------------------------------------
 // chan_helpers.go (C05, C06)
@@ -280,9 +302,20 @@ package bloomsearch
 //   - with the flush context already done: no store call at all (C08).
 //@ func (*BloomSearchEngine).handleFlush
 //@ appends fileMetadata.DataBlocks
-//@ props C05 C06 C08
+//@ props C05 C06 C08 C17
 //@ requires b != nil
 //@ modifies heaps, $store, $answers
+// C17 (flush side): the same layout statement as the merge path, without a
+// ghost overflow flag. W is the mathematical number of bytes the output file's
+// writer has accepted; for every file shorter than 2^63 bytes the running
+// offset equals W (so the Go addition never wrapped), the first block starts at
+// 0 and each block starts where the previous one ends, the sections buffered
+// for the region are back to back in block order, and what goes into the footer
+// places the region exactly at the end of the row data.
+//@ loop 0 invariant [C17] storeWriter(writer) && sectionsAt(fileMetadata.DataBlocks, 0, len(filterRegion.buf.buf) - filterRegion.buf.off)
+//@ loop 0 invariant [C17] ghost.written[wid(writer)] >= old(ghost.written[wid(writer)])
+//@ loop 0 invariant [C17] ghost.written[wid(writer)] - old(ghost.written[wid(writer)]) <= MaxInt64 ==> currentOffset == ghost.written[wid(writer)] - old(ghost.written[wid(writer)]) && rowsAt(fileMetadata.DataBlocks, currentOffset)
+//@ at call WriteFileFooter#1 assert [C17] ghost.written[wid(writer)] - old(ghost.written[wid(writer)]) <= MaxInt64 ==> rowsAt(fileMetadata.DataBlocks, fileMetadata.BlockFilterRegionOffset) && sectionsAt(fileMetadata.DataBlocks, fileMetadata.BlockFilterRegionOffset, fileMetadata.BlockFilterRegionOffset + fileMetadata.BlockFilterRegionSize) && fileMetadata.BlockFilterRegionOffset + fileMetadata.BlockFilterRegionSize == ghost.written[wid(writer)] - old(ghost.written[wid(writer)])
 //@ loop 0 invariant ghost.creates == old(ghost.creates) + 1 && ghost.created == old(ghost.created) + 1
 //@ loop 0 invariant ghost.closeCalls == old(ghost.closeCalls) && ghost.closeOK == old(ghost.closeOK) && ghost.aborts == old(ghost.aborts)
 //@ loop 0 invariant ghost.updates == old(ghost.updates) && ghost.updateOK == old(ghost.updateOK) && ghost.tombstones == old(ghost.tombstones)
@@ -372,7 +405,7 @@ package bloomsearch
 //@ at call (*BloomSearchEngine).flushBufferedData#1 assert [C07] len(*doneChans) == old(len(*doneChans)) + 1 && (*doneChans)[len(*doneChans) - 1] == req.doneChan && forall k :: 0 <= k && k < old(len(*doneChans)) ==> (*doneChans)[k] == old((*doneChans)[k])
 //@ at call (*BloomSearchEngine).flushBufferedData#2 assert [C07] len(*doneChans) == old(len(*doneChans)) + 1 && (*doneChans)[len(*doneChans) - 1] == req.doneChan && forall k :: 0 <= k && k < old(len(*doneChans)) ==> (*doneChans)[k] == old((*doneChans)[k])
 //@ ensures [C07] len(*doneChans) == old(len(*doneChans)) + 1 ==> (*doneChans)[len(*doneChans) - 1] == old(req.doneChan) && forall k :: 0 <= k && k < old(len(*doneChans)) ==> (*doneChans)[k] == old((*doneChans)[k])
-//@ modifies heaps, ghost.flushTriggers, ghost.writes, ghost.unsafeViews, ghost.pinned, $answers
+//@ modifies heaps, ghost.flushTriggers, ghost.writes, ghost.written, ghost.unsafeViews, ghost.pinned, $answers
 //@ let direct0 = ghost.attempts - ghost.roundAttempts
 // C10 / C09: reaching a buffer-level limit flushes immediately — when the call
 // returns having retained the batch without triggering a flush, the buffered row
@@ -1008,8 +1041,16 @@ package bloomsearch
 // nil; on every failure after CreateFile it aborts and tombstones its own
 // output exactly once. It never calls Update.
 //@ func (*BloomSearchEngine).executeMergeGroup
-//@ props C13
+//@ props C13 C17 C18
+//@ heapfacts []DataBlockMetadata, bloomEntrySets
 //@ requires b != nil
+// C17: the metadata returned for a merged file describes the layout that was
+// written — rows end where the filter region starts, the region holds the
+// sections back to back in block order and ends at offset+size.
+//@ loop 3 invariant [C17] rowsOK(newDataBlocks, currentOffset) && sectionsAt(newDataBlocks, 0, len(filterRegion.buf.buf) - filterRegion.buf.off) && storeWriter(writer)
+//@ loop 3 invariant [C18] setsOK(fileEntries)
+//@ ensures [C17] result2 == nil && !ghost.layoutOvf ==> rowsAt(result1.DataBlocks, result1.BlockFilterRegionOffset)
+//@ ensures [C17] result2 == nil && !ghost.layoutOvf && result1.BlockFilterRegionOffset + result1.BlockFilterRegionSize <= MaxInt64 ==> sectionsAt(result1.DataBlocks, result1.BlockFilterRegionOffset, result1.BlockFilterRegionOffset + result1.BlockFilterRegionSize)
 //@ modifies heaps, $store, ghost.handleCloses, ghost.unsafeViews, ghost.pinned
 //@ loop 3 invariant ghost.creates == old(ghost.creates) + 1 && ghost.created == old(ghost.created) + 1
 //@ loop 3 invariant ghost.closeCalls == old(ghost.closeCalls) && ghost.closeOK == old(ghost.closeOK) && ghost.aborts == old(ghost.aborts)
@@ -1021,6 +1062,82 @@ package bloomsearch
 //@ ensures result2 != nil ==> ghost.tombstones - old(ghost.tombstones) == ghost.created - old(ghost.created)
 //@ ensures ghost.created <= old(ghost.created) + 1 && ghost.created >= old(ghost.created)
 //@ ensures ghost.closeOK >= old(ghost.closeOK)
+
+// ---------------------------------------------------------------------------
+// C17: the layout a written file's metadata describes is the layout of its
+// bytes. Stated without quantifiers, as what every step preserves: the first
+// block starts at 0 and the running end (the output offset / the buffered
+// region's length) is where the last recorded block / section ends (rowsAt,
+// sectionsAt); each new record starts at that end, the end advances by exactly
+// the recorded size, exactly that many bytes go to the writer (ghost.written),
+// and earlier records are never touched again. Contiguity of the whole list in
+// block order is the induction over these steps (on paper, DESIGN §14).
+//@ pred rowsAt(blocks []DataBlockMetadata, end int) = (len(blocks) == 0 ==> end == 0) && (len(blocks) > 0 ==> blocks[0].RowDataOffset == 0 && end == blocks[len(blocks) - 1].RowDataOffset + blocks[len(blocks) - 1].RowDataSize)
+//@ pred sectionsAt(blocks []DataBlockMetadata, base int, end int) = (len(blocks) == 0 ==> end == base) && (len(blocks) > 0 ==> blocks[0].BloomFilterOffset == base && end == blocks[len(blocks) - 1].BloomFilterOffset + blocks[len(blocks) - 1].BloomFilterSize && blocks[len(blocks) - 1].BloomFilterSize >= 0 && blocks[len(blocks) - 1].BloomFilterOffset >= base)
+//@ pred regionLen(r *blockFilterRegionWriter) = len(r.buf.buf) - r.buf.off
+// Offsets are Go ints. layoutOvf records that some offset addition left the int
+// range (an output of 2^63 bytes or more); every layout statement is made for
+// runs in which it stays false, so nothing is assumed silently.
+//@ ghostvar layoutOvf bool
+//@ pred rowsOK(blocks []DataBlockMetadata, end int) = ghost.layoutOvf || (rowsAt(blocks, end) && end >= 0)
+
+// The compression stage in front of a destination is the destination itself or
+// a pooled encoder: never the output file's writer.
+//@ func (*BloomSearchEngine).createCompressionWriter
+//@ props C17
+//@ requires b != nil
+// Demanded of the callers that are under the C17 layout contracts only: the
+// ingest path compresses into an in-memory partition buffer and makes no
+// statement about ghost.written.
+//@ requires [C17] !storeWriter(dest)
+//@ modifies heaps
+//@ ensures result1 == nil ==> result0 != nil && !storeWriter(result0.writer)
+
+// processPartitionBlocks: whatever the grouping decides, every group goes
+// through copyDataBlock or mergeDataBlocks, so the layout invariants carry over
+// the whole partition and the bytes handed to the writer add up to the offset
+// advance.
+//@ func (*BloomSearchEngine).processPartitionBlocks
+//@ props C17 C18
+//@ heapfacts []DataBlockMetadata, bloomEntrySets
+//@ requires b != nil && currentOffset != nil && newDataBlocks != nil && fileEntries != nil && filterRegion != nil
+//@ requires [C17] rowsOK(*newDataBlocks, *currentOffset) && sectionsAt(*newDataBlocks, 0, regionLen(filterRegion)) && storeWriter(writer)
+//@ requires [C18] setsOK(fileEntries)
+//@ modifies heaps, ghost.pinned, ghost.unsafeViews, ghost.opens, ghost.handleCloses, ghost.writes, ghost.written, ghost.unions, ghost.layoutOvf
+//@ pred untouched(nb *[]DataBlockMetadata, co *int, fr *blockFilterRegionWriter, w iface) = *nb == old(*nb) && *co == old(*co) && regionLen(fr) == old(regionLen(fr)) && ghost.layoutOvf == old(ghost.layoutOvf) && ghost.written[wid(w)] == old(ghost.written[wid(w)]) && sameelems(*nb)
+//@ pred sameSets2(s *bloomEntrySets) = s.fields == old(s.fields) && s.tokens == old(s.tokens) && s.fieldTokens == old(s.fieldTokens)
+//@ loop 0 invariant untouched(newDataBlocks, currentOffset, filterRegion, writer) && sameSets2(fileEntries)
+//@ loop 1 invariant untouched(newDataBlocks, currentOffset, filterRegion, writer) && sameSets2(fileEntries)
+//@ loop 2 invariant untouched(newDataBlocks, currentOffset, filterRegion, writer) && sameSets2(fileEntries)
+//@ loop 3 invariant untouched(newDataBlocks, currentOffset, filterRegion, writer) && sameSets2(fileEntries)
+//@ loop 4 invariant [C17] rowsOK(*newDataBlocks, *currentOffset) && sectionsAt(*newDataBlocks, 0, regionLen(filterRegion))
+//@ loop 4 invariant [C17] (old(ghost.layoutOvf) ==> ghost.layoutOvf) && (!ghost.layoutOvf ==> ghost.written[wid(writer)] == old(ghost.written[wid(writer)]) + (*currentOffset - old(*currentOffset)))
+//@ loop 4 invariant sameSets2(fileEntries)
+//@ ensures [C17] result == nil ==> rowsOK(*newDataBlocks, *currentOffset) && sectionsAt(*newDataBlocks, 0, regionLen(filterRegion))
+//@ ensures [C17] result == nil && !ghost.layoutOvf ==> ghost.written[wid(writer)] == old(ghost.written[wid(writer)]) + (*currentOffset - old(*currentOffset))
+//@ ensures [C17] old(ghost.layoutOvf) ==> ghost.layoutOvf
+//@ ensures sameSets2(fileEntries)
+
+// finish writes the whole buffered region and rebases every block's section
+// offset by the region's position; nothing else in the records changes.
+//@ func (*blockFilterRegionWriter).finish
+//@ props C17
+//@ requires r != nil
+//@ modifies blocks[*], ghost.writes, ghost.written
+//@ pred rebased(nw DataBlockMetadata, od DataBlockMetadata, by int) = (od.BloomFilterOffset + by <= MaxInt64 && od.BloomFilterOffset + by >= MinInt64 ==> nw.BloomFilterOffset == od.BloomFilterOffset + by) && nw.BloomFilterSize == od.BloomFilterSize && nw.RowDataOffset == od.RowDataOffset && nw.RowDataSize == od.RowDataSize
+//@ loop 0 invariant -1 <= $index && $index < len(blocks) && arrframe(blocks)
+//@ loop 0 invariant forall k :: 0 <= k && k <= $index ==> rebased(blocks[k], old(blocks[k]), regionOffset)
+//@ loop 0 invariant forall k :: $index < k && k < len(blocks) ==> blocks[k] == old(blocks[k])
+//@ loop 0 invariant ghost.written[wid(w)] == old(ghost.written[wid(w)]) + regionLen(r) && regionLen(r) == old(regionLen(r))
+//@ ensures result1 == nil ==> result0 == regionLen(r) && regionLen(r) == old(regionLen(r)) && ghost.written[wid(w)] == old(ghost.written[wid(w)]) + regionLen(r)
+//@ ensures result1 == nil ==> forall k :: 0 <= k && k < len(blocks) ==> rebased(blocks[k], old(blocks[k]), regionOffset)
+//@ ensures result1 != nil ==> forall k :: 0 <= k && k < len(blocks) ==> blocks[k] == old(blocks[k])
+
+//@ func (*blockFilterRegionWriter).add
+//@ props C17
+//@ requires r != nil
+//@ modifies *r, heap(byte)
+//@ ensures relativeOffset == old(regionLen(r)) && size == len(section) && regionLen(r) == old(regionLen(r)) + len(section)
 
 // Entry-set lifetime (C18, and through it C01/C17/C11). indexRow parses the
 // row through a zero-copy view, and with a custom tokenizer the strings it
@@ -1082,16 +1199,65 @@ package bloomsearch
 //@ ensures forall k str :: has(dst.fieldTokens, k) <==> old(has(dst.fieldTokens, k)) || has(s.fieldTokens, k)
 
 //@ func (*BloomSearchEngine).copyDataBlock
-//@ props C18
+//@ props C18 C17
+//@ heapfacts []DataBlockMetadata, bloomEntrySets
 //@ requires b != nil && currentOffset != nil && newDataBlocks != nil && fileEntries != nil && filterRegion != nil
+// C17: a copied block lands at the output's current offset with its original
+// size, exactly that many bytes go to the writer, its section is appended to
+// the buffered region, and the earlier blocks' records are untouched; on error
+// nothing is recorded.
+// (offsets are Go ints: the statements hold whenever the output stays below
+// 2^63 bytes, which is stated, not assumed silently)
+//@ requires [C17] rowsOK(*newDataBlocks, *currentOffset) && sectionsAt(*newDataBlocks, 0, regionLen(filterRegion))
+//@ exit ghost.layoutOvf = ghost.layoutOvf || (result == nil && old(*currentOffset) + bwf.block.RowDataSize > MaxInt64)
+//@ ensures [C17] old(ghost.layoutOvf) ==> ghost.layoutOvf
+//@ ensures [C17] result != nil ==> ghost.layoutOvf == old(ghost.layoutOvf)
+//@ ensures [C17] forall k :: 0 <= k && k < old(len(*newDataBlocks)) ==> (*newDataBlocks)[k] == old((*newDataBlocks)[k])
+//@ ensures [C17] result == nil ==> len(*newDataBlocks) == old(len(*newDataBlocks)) + 1
+//@ ensures [C17] result == nil ==> (*newDataBlocks)[len(*newDataBlocks) - 1].BloomFilterOffset == old(regionLen(filterRegion)) && regionLen(filterRegion) == old(regionLen(filterRegion)) + (*newDataBlocks)[len(*newDataBlocks) - 1].BloomFilterSize
+//@ ensures [C17] result == nil ==> sectionsAt(*newDataBlocks, 0, regionLen(filterRegion))
+//@ ensures [C17] result == nil ==> (*newDataBlocks)[len(*newDataBlocks) - 1].RowDataOffset == old(*currentOffset) && (*newDataBlocks)[len(*newDataBlocks) - 1].RowDataSize >= 0
+//@ ensures [C17] result == nil && !ghost.layoutOvf ==> *currentOffset == old(*currentOffset) + (*newDataBlocks)[len(*newDataBlocks) - 1].RowDataSize
+//@ ensures [C17] result == nil ==> rowsOK(*newDataBlocks, *currentOffset)
+//@ ensures [C17] result == nil && !ghost.layoutOvf ==> ghost.written[wid(writer)] == old(ghost.written[wid(writer)]) + (*currentOffset - old(*currentOffset))
+//@ ensures [C17] result == nil ==> (*newDataBlocks)[len(*newDataBlocks) - 1].RowDataSize == bwf.block.RowDataSize && (*newDataBlocks)[len(*newDataBlocks) - 1].Rows == bwf.block.Rows
+//@ ensures [C17] result != nil ==> len(*newDataBlocks) == old(len(*newDataBlocks)) && *currentOffset == old(*currentOffset) && regionLen(filterRegion) == old(regionLen(filterRegion))
 //@ appends *newDataBlocks
-//@ modifies heaps, ghost.pinned, ghost.unsafeViews, ghost.opens, ghost.handleCloses, ghost.writes
+//@ modifies heaps, ghost.pinned, ghost.unsafeViews, ghost.opens, ghost.handleCloses, ghost.writes, ghost.written, ghost.layoutOvf
 //@ loop 0 invariant forall a :: ghost.pinned[a] ==> a >= $alloc && a != 0
 //@ loop 0 invariant scanner != nil && 0 <= scanner.pos && scanner.pos <= len(scanner.data)
+//@ loop 0 invariant fileEntries.fields == old(fileEntries.fields) && fileEntries.tokens == old(fileEntries.tokens) && fileEntries.fieldTokens == old(fileEntries.fieldTokens)
+//@ ensures fileEntries.fields == old(fileEntries.fields) && fileEntries.tokens == old(fileEntries.tokens) && fileEntries.fieldTokens == old(fileEntries.fieldTokens)
 
 //@ func (*BloomSearchEngine).mergeDataBlocks
-//@ props C18
-//@ heapfacts
+//@ props C18 C17
+//@ heapfacts []DataBlockMetadata, bloomEntrySets
+// C17: same layout obligations as copyDataBlock, for a rebuilt block.
+//@ requires [C17] rowsOK(*newDataBlocks, *currentOffset) && sectionsAt(*newDataBlocks, 0, regionLen(filterRegion))
+//@ requires [C17] storeWriter(writer)
+//@ exit ghost.layoutOvf = ghost.layoutOvf || (result == nil && old(*currentOffset) + (*newDataBlocks)[len(*newDataBlocks) - 1].RowDataSize > MaxInt64)
+//@ ensures [C17] old(ghost.layoutOvf) ==> ghost.layoutOvf
+//@ ensures [C17] result != nil ==> ghost.layoutOvf == old(ghost.layoutOvf)
+//@ ensures [C17] forall k :: 0 <= k && k < old(len(*newDataBlocks)) ==> (*newDataBlocks)[k] == old((*newDataBlocks)[k])
+//@ ensures [C17] result == nil ==> len(*newDataBlocks) == old(len(*newDataBlocks)) + 1
+//@ ensures [C17] result == nil ==> (*newDataBlocks)[len(*newDataBlocks) - 1].BloomFilterOffset == old(regionLen(filterRegion)) && regionLen(filterRegion) == old(regionLen(filterRegion)) + (*newDataBlocks)[len(*newDataBlocks) - 1].BloomFilterSize
+//@ ensures [C17] result == nil ==> sectionsAt(*newDataBlocks, 0, regionLen(filterRegion))
+//@ ensures [C17] result == nil ==> (*newDataBlocks)[len(*newDataBlocks) - 1].RowDataOffset == old(*currentOffset) && (*newDataBlocks)[len(*newDataBlocks) - 1].RowDataSize >= 0
+//@ ensures [C17] result == nil && !ghost.layoutOvf ==> *currentOffset == old(*currentOffset) + (*newDataBlocks)[len(*newDataBlocks) - 1].RowDataSize
+//@ ensures [C17] result == nil ==> rowsOK(*newDataBlocks, *currentOffset)
+//@ ensures [C17] result == nil && !ghost.layoutOvf ==> ghost.written[wid(writer)] == old(ghost.written[wid(writer)]) + (*currentOffset - old(*currentOffset))
+//@ ensures [C17] result == nil ==> (*newDataBlocks)[len(*newDataBlocks) - 1].PartitionID == partitionID
+//@ ensures [C17] result != nil ==> len(*newDataBlocks) == old(len(*newDataBlocks)) && *currentOffset == old(*currentOffset)
+//@ loop 0 invariant [C17] *newDataBlocks == old(*newDataBlocks)
+//@ loop 0 invariant [C17] *currentOffset == old(*currentOffset)
+//@ loop 0 invariant [C17] regionLen(filterRegion) == old(regionLen(filterRegion))
+//@ loop 0 invariant [C17] ghost.written[wid(writer)] == old(ghost.written[wid(writer)])
+//@ loop 1 invariant [C17] *newDataBlocks == old(*newDataBlocks)
+//@ loop 1 invariant [C17] *currentOffset == old(*currentOffset)
+//@ loop 1 invariant [C17] regionLen(filterRegion) == old(regionLen(filterRegion))
+//@ loop 1 invariant [C17] ghost.written[wid(writer)] == old(ghost.written[wid(writer)])
+//@ loop 0 invariant [C17] forall k :: 0 <= k && k < len(*newDataBlocks) ==> (*newDataBlocks)[k] == old((*newDataBlocks)[k])
+//@ loop 1 invariant [C17] forall k :: 0 <= k && k < len(*newDataBlocks) ==> (*newDataBlocks)[k] == old((*newDataBlocks)[k])
 //@ requires b != nil && currentOffset != nil && newDataBlocks != nil && fileEntries != nil && filterRegion != nil
 //@ requires setsOK(fileEntries)
 //@ pred sameSets(s *bloomEntrySets) = s.fields == old(s.fields) && s.tokens == old(s.tokens) && s.fieldTokens == old(s.fieldTokens)
@@ -1106,7 +1272,7 @@ package bloomsearch
 //@ ensures [C18] result == nil ==> ghost.unions == old(ghost.unions) + 1
 //@ ensures [C18] ghost.unions <= old(ghost.unions) + 1
 //@ appends *newDataBlocks
-//@ modifies heaps, ghost.pinned, ghost.unsafeViews, ghost.opens, ghost.handleCloses, ghost.writes, ghost.unions
+//@ modifies heaps, ghost.pinned, ghost.unsafeViews, ghost.opens, ghost.handleCloses, ghost.writes, ghost.written, ghost.unions, ghost.layoutOvf
 //@ loop 0 invariant forall a :: ghost.pinned[a] ==> a >= $alloc && a != 0
 //@ loop 1 invariant forall a :: ghost.pinned[a] ==> a >= $alloc && a != 0
 //@ loop 1 invariant scanner != nil && 0 <= scanner.pos && scanner.pos <= len(scanner.data)
@@ -1468,8 +1634,8 @@ package bloomsearch
 //@ func (*BloomSearchEngine).blocksWithinMergeLimits
 //@ props C12
 //@ requires b != nil
-//@ requires 0 <= shape1.rows && 0 <= shape2.rows && 0 <= shape1.uncompressedSize && 0 <= shape2.uncompressedSize
-//@ requires shape1.rows < 4611686018427387904 && shape2.rows < 4611686018427387904 && shape1.uncompressedSize < 4611686018427387904 && shape2.uncompressedSize < 4611686018427387904
+//@ requires [C12] 0 <= shape1.rows && 0 <= shape2.rows && 0 <= shape1.uncompressedSize && 0 <= shape2.uncompressedSize
+//@ requires [C12] shape1.rows < 4611686018427387904 && shape2.rows < 4611686018427387904 && shape1.uncompressedSize < 4611686018427387904 && shape2.uncompressedSize < 4611686018427387904
 //@ ensures result <==> (shape1.rows + shape2.rows <= b.config.MaxRowGroupRows && shape1.uncompressedSize + shape2.uncompressedSize <= b.config.MaxRowGroupBytes)
 
 // ---------------------------------------------------------------------------
